@@ -1,48 +1,36 @@
 package main
 
 import (
-	"bytes"
-	"context"
-	_ "crypto/sha256"
-	_ "crypto/sha512"
 	"fmt"
+	"os"
 	"time"
 
-	"oras.land/oras-go/v2/verifharness/copymon"
 	"oras.land/oras-go/v2/verifharness/evidence"
-	"oras.land/oras-go/v2/verifharness/stores"
+	"oras.land/oras-go/v2/verifharness/worker"
 )
 
 func main() {
-	ctx := context.Background()
-	rng := evidence.RandFor(23, "c04-acct", 8494)
-	c := copymon.GenCase(rng, copymon.GenOpts{MaxNodes: 100, APIs: []string{"Copy", "CopyGraph", "CopyGraph", "ExtendedCopyGraph"}, MaxDelay: 1500 * time.Microsecond, RaceWriter: true, Trees: true, OptionalCB: true})
-	g := c.G
-	h, err := stores.New("remote", c.Profile)
-	fmt.Println(err)
-	for _, id := range g.TopoChildrenFirst() {
-		nd := g.Nodes[id]
-		err := h.Target.Push(ctx, nd.Desc, bytes.NewReader(nd.Bytes))
-		if err != nil {
-			fmt.Println("push", id, nd.Kind, err)
-		}
-		if id == 88 || id == 87 {
-			ok, e := h.Target.Exists(ctx, nd.Desc)
-			fmt.Println("exists", id, ok, e)
-		}
+	if worker.IsWorker() {
+		worker.Serve(func(phase string, i int) worker.Result {
+			switch {
+			case phase == "spin" && i == 3:
+				for {
+				}
+			case phase == "sleep" && i == 3:
+				time.Sleep(time.Hour)
+			default:
+				time.Sleep(1500 * time.Millisecond) // slow but progressing: 10 cases take 15 s > timeout
+			}
+			return worker.Result{Key: fmt.Sprint(i), NT: true}
+		})
+		return
 	}
-	r := h.Reg.Repo("test/repo")
-	_, ok := r.Manifests[g.Nodes[88].Desc.Digest]
-	fmt.Println("88 in manifests:", ok, len(r.Manifests), len(r.Blobs))
-	_, okb := r.Blobs[g.Nodes[88].Desc.Digest]
-	fmt.Println("88 in blobs:", okb)
-	for _, rec := range h.Reg.Log() {
-		if len(rec.Path) > 0 && (bytes.Contains([]byte(rec.Path), []byte("7dbc18dd")) || bytes.Contains([]byte(rec.RawQuery), []byte("7dbc18dd"))) {
-			fmt.Println(rec.Method, rec.Path, rec.RawQuery, rec.Status)
-		}
-	}
-}
-
-func init() {
-	defer func() { recover() }()
+	os.Setenv("VERIF_ROOT", "/tmp/dbgroot")
+	os.MkdirAll("/tmp/dbgroot/evidence", 0o755)
+	os.WriteFile("/tmp/dbgroot/known_findings.json", []byte(`{"findings":[]}`), 0o644)
+	r := evidence.New("C99", "exploration")
+	worker.Run(r, worker.Opts{Phase: "slow", Total: 10, Batch: 10, Parallel: 1, Timeout: 5 * time.Second})
+	worker.Run(r, worker.Opts{Phase: "spin", Total: 6, Batch: 6, Parallel: 1, Timeout: 5 * time.Second})
+	worker.Run(r, worker.Opts{Phase: "sleep", Total: 6, Batch: 6, Parallel: 1, Timeout: 5 * time.Second})
+	r.Finish(1)
 }
